@@ -16,11 +16,13 @@ BUGS = [("Bug_AckBeforeSync.cfg", "AckedRecovered"), ("Bug_DelWALEarly.cfg", Non
         ("Bug_NoSSTSync.cfg", "OpenSucceeds"), ("Bug_NoWALDirSync.cfg", None)]
 
 PROPS = {
-    "C10": dict(runs=[dict(profile="C10", cfgs="crash1,crash2,crashvs,crashold", env={}, scripts_mult=2)], checked=["crash10"]),
-    "C11": dict(runs=[dict(profile="C11", cfgs="crash1,crash2,crashvs,crashold", env={}),
+    "C10": dict(runs=[dict(profile="C10", cfgs="crash1,crash2,crashvs,crashold", env={}, scripts_mult=2),
+                      dict(profile="CONC", cfgs="crash1,crash2", env={}, scripts_mult=1)], checked=["crash10"]),
+    "C11": dict(runs=[dict(profile="C11", cfgs="crash1,crash2,crashvs,crashold", env={}, scripts_mult=2),
                       dict(profile="C11F", cfgs="crash2,crash1", env={"VERIF_EVERY": "2"}, finding=True, scripts=2)],
                 checked=["crash11"]),
-    "C12": dict(runs=[dict(profile="C12", cfgs="crash1,crashnowal,crash2,crashnowalauto", env={})], checked=["crash12"]),
+    "C12": dict(runs=[dict(profile="C12", cfgs="crash1,crashnowal,crash2,crashnowalauto", env={}),
+                      dict(profile="CONC", cfgs="crashnowal,crashnowalauto,crash1", env={}, scripts_mult=1.5)], checked=["crash12"]),
     "C13": dict(runs=[dict(profile="C13", cfgs="crash1,crash2,crashvs,crashnowal", env={"VERIF_DURREAD": "1", "VERIF_EVERY": "0"}, scripts_mult=4),
                       dict(profile="C13F", cfgs="crash2,crash1", env={"VERIF_DURREAD": "1", "VERIF_EVERY": "0"}, finding=True, scripts=3)],
                 checked=["crash13"]),
@@ -107,7 +109,7 @@ def run_crash(run):
     opkinds = {}
     for rc in pp["runs"]:
         tdir = vlib.scratch("verif.crash.")
-        scripts = rc.get("scripts") or (4 if quick else 60) * rc.get("scripts_mult", 1)
+        scripts = rc.get("scripts") or int((4 if quick else 60) * rc.get("scripts_mult", 1))
         env = dict(VERIF_OUT=tdir, VERIF_CRASHPROFILE=rc["profile"], VERIF_SEED=str(run.seed), VERIF_CONFIGS=rc["cfgs"],
                    VERIF_SCRIPTS=str(scripts), VERIF_STEPS=str(30 if quick else 45),
                    VERIF_MAXPROBES=str(2500 if quick else 6000))
